@@ -104,6 +104,11 @@ def _edge_weight(F, b, p, e):
                 if rv["k"] == "use" and rv["op"].get("k") == "const" and str(rv["op"].get("text")) in ("true", "false"):
                     if (str(rv["op"]["text"]) == "true") == want:
                         w += max(1, len([p_ for p_ in b.preds()[d[1]] if not b.blocks[p_].get("cleanup")]))
+                elif rv["k"] == "agg" and "vidx" in rv["kind"] and not rv["kind"].get("fields", None) is None and len(ds) == 2:
+                    # an Option / two-variant flag assembled on two paths (`break 'l Some(i)` / `None`): only the assignment of
+                    # the tested variant leads into this edge
+                    if (rv["kind"]["vidx"] == 1) == want:
+                        w += 1
                 else:
                     w += 1
             return max(w, 1)
